@@ -142,6 +142,31 @@ func countEpoch(spec *common.Spec, c Counters, pre, post *absstate.State) {
 	}
 	c.Add("balance_increases", balUp)
 	c.Add("balance_decreases", balDown)
+	// "skip when nothing to do" shortcuts whose guard is true although the work is not a no-op
+	noPart := true
+	if pre.PrevAtts != nil && len(*pre.PrevAtts) > 0 {
+		noPart = false
+	}
+	if pre.PrevPart != nil {
+		for _, f := range *pre.PrevPart {
+			if f != 0 {
+				noPart = false
+				break
+			}
+		}
+	}
+	if noPart && balDown > 0 && epoch > 0 {
+		c.Add("penalties_without_any_previous_epoch_attestation", 1)
+	}
+	if queued > 0 && activated == 0 && ejected == 0 {
+		c.Add("eligibility_marked_without_activation_or_ejection", 1)
+	}
+	for i := 0; i < n; i++ {
+		if pre.Validators[i].Eff != post.Validators[i].Eff && pre.Balances[i] == post.Balances[i] {
+			c.Add("effective_balance_change_with_unchanged_balance", 1)
+			break
+		}
+	}
 	if len(post.HistoricalRoots) > len(pre.HistoricalRoots) {
 		c.Add("historical_roots_appended", 1)
 	}
@@ -348,6 +373,49 @@ func countBlock(spec *common.Spec, c Counters, ev *blockEvent, pre *absstate.Sta
 			}
 		}
 	}
+	// aggregates of one (slot, committee) that overlap with what was included before: exact duplicate, strict
+	// superset, partial overlap (some attesters already flagged, some new) - and, within the latter, an already
+	// flagged attester PRECEDING a new one in committee order
+	for _, a := range b.Atts {
+		m := 0
+		for i, x := range a.Bits {
+			if x == 1 && i < 30 {
+				m |= 1 << uint(i)
+			}
+		}
+		key := fmt.Sprintf("_att_%d_%d", a.Data.Slot, a.Data.Index)
+		p := c[key]
+		if p != 0 && m != 0 {
+			switch {
+			case m&p == m:
+				c.Add("atts_all_attesters_already_included", 1) // exact duplicate or subset of what was included
+				c.Add("atts_all_attesters_already_included_"+pre.Fork, 1)
+			case m&p == p:
+				c.Add("atts_strict_superset_of_included", 1)
+				c.Add("atts_strict_superset_of_included_"+pre.Fork, 1)
+			case m&p != 0 && m&^p != 0:
+				c.Add("atts_partial_overlap", 1)
+				lowOld, highNew := 0, 0
+				for i := 0; i < 30; i++ {
+					if (m&p)>>uint(i)&1 == 1 {
+						lowOld = i
+						break
+					}
+				}
+				for i := 29; i >= 0; i-- {
+					if (m&^p)>>uint(i)&1 == 1 {
+						highNew = i
+						break
+					}
+				}
+				if lowOld < highNew {
+					c.Add("atts_partial_overlap_flagged_before_new", 1)
+					c.Add("atts_partial_overlap_flagged_before_new_"+pre.Fork, 1)
+				}
+			}
+		}
+		c[key] = p | m
+	}
 	// inclusion delay classes
 	sq := 1
 	for (sq+1)*(sq+1) <= int(spec.SLOTS_PER_EPOCH) {
@@ -415,6 +483,17 @@ func countBlock(spec *common.Spec, c Counters, ev *blockEvent, pre *absstate.Sta
 		}
 		if len(b.Payload.Withdrawals) > 0 {
 			c.Add("blocks_with_withdrawals", 1)
+		}
+		if pre.NextWdValidator != nil && int(spec.MAX_VALIDATORS_PER_WITHDRAWALS_SWEEP) > len(pre.Validators) {
+			c.Add("sweep_bound_exceeds_registry_size", 1)
+			if len(b.Payload.Withdrawals) < int(spec.MAX_WITHDRAWALS_PER_PAYLOAD) {
+				c.Add("sweep_bound_exceeds_registry_size_list_not_full", 1)
+				if int(spec.MAX_VALIDATORS_PER_WITHDRAWALS_SWEEP)%len(pre.Validators) != 0 {
+					c.Add("sweep_bound_exceeds_registry_size_cursor_wraps_unevenly", 1)
+				}
+			} else {
+				c.Add("sweep_bound_exceeds_registry_size_list_full", 1)
+			}
 		}
 	}
 	if b.NCommitments > 0 {
